@@ -58,7 +58,7 @@ theorem bweyl_n_spec_2 (e : Env K) : ∀ b : Fin 3,
      simp only [core_unfold]
      ring)
 
-theorem bweyl_n_spec (e : Env K) : ∀ a b : Fin 3,
+theorem bweyl_n_matches (e : Env K) : ∀ a b : Fin 3,
     bweyl_n_down3 e a b
       = bweylN (epsUud3 e.gammaup3 (levicivita_down3 e)) e.gammadown3 (s_covd_dd e e.Kdown3)
           (s_covd_scalar e e.Ktrace) (s_covd_ud e (Kmixed e)) a b := by
@@ -111,7 +111,7 @@ theorem bweyl_u_spec_3 (e : Env K) : ∀ f : Fin 4,
      simp only [core_unfold]
      ring)
 
-theorem bweyl_u_spec (e : Env K) : ∀ a f : Fin 4,
+theorem bweyl_u_matches (e : Env K) : ∀ a f : Fin 4,
     bweyl_u_down4 e a f = bweylU e.st_Weyl_down4 e.uup4 (epsUudd e.gup4 (levicivita_down4 e)) a f := by
   cases4
   · exact bweyl_u_spec_0 e
